@@ -157,7 +157,8 @@ func strExecSlice(s *String, values []r.Element) (r.Element, error) {
 	if err := ValidateExactParams(values, "number", "number"); err != nil {
 		return nil, err
 	}
-	ss := s.GetValue()
+	// count by characters (instead of bytes) - same as 长度 & 字符组
+	ss := []rune(s.GetValue())
 	startIdx := int(values[0].(*Number).GetValue())
 	endIdx := int(values[1].(*Number).GetValue())
 	if startIdx < 0 {
@@ -179,7 +180,7 @@ func strExecSlice(s *String, values []r.Element) (r.Element, error) {
 		return NewString(""), nil
 	}
 
-	subString := ss[startIdx-1 : endIdx]
+	subString := string(ss[startIdx-1 : endIdx])
 	return NewString(subString), nil
 }
 
